@@ -76,6 +76,18 @@ fn exec_cmp_same<T: Tbl>(ctx: &mut Ctx, ev: &Ev) {
             return;
         }
     };
+    if ev.tabs[0] == ev.tabs[1] {
+        // the same object on both sides, and clamp / max / min on one object
+        let selfcmp = guard(|| (a.cmp(&a), a.partial_cmp(&a), a == a, a < a, a <= a, a.clone().clamp(a.clone(), a.clone()) == a));
+        match selfcmp {
+            Outcome::Returned((c0, p0, e0, l0, le0, cl)) => {
+                ctx.check("reflexive", c0 == Ordering::Equal && p0 == Some(Ordering::Equal) && e0 && !l0 && le0 && cl, ev, "self", || {
+                    format!("a value compared with itself: cmp {:?}, partial_cmp {:?}, == {}, < {}, <= {}", c0, p0, e0, l0, le0)
+                });
+            }
+            Outcome::Panicked(m) => ctx.violate("no-panic", ev, "self", format!("self comparison panicked: {}", m)),
+        }
+    }
     let desc = || format!("a={} b={}", hex_of_blocks(&ev.tabs[0]), hex_of_blocks(&ev.tabs[1]));
     ctx.check("cmp-numeric", c == want, ev, class, || format!("cmp gave {} expected {} for {}", ord_name(c), ord_name(want), desc()));
     ctx.check("partial-cmp", pc == Some(want), ev, class, || format!("partial_cmp gave {:?} expected {} for {}", pc, ord_name(want), desc()));
